@@ -14,6 +14,10 @@ pub use decoder::{Decoder, Probe};
 pub use decoder::{ArrayIter, ArrayIterWithCtx, BytesIter, MapIter, MapIterWithCtx, StrIter};
 pub use error::Error;
 
+#[cfg(all(minicbor_verif, feature = "std"))]
+#[doc(hidden)]
+pub use decoder::verif;
+
 #[cfg(feature = "half")]
 mod tokenizer;
 
